@@ -416,6 +416,25 @@ def c10i(ctx):
                unit="%s@%s" % (c, s), detail="" if rc == 0 else "type witness failed: " + first)
 
 
+def c10k(ctx, tu):
+    """A matcher's verdict is a function of its operands and the value offered - not of what other matchers were
+    created or asked before: the code under include/trompeloeil/matcher/ keeps no mutable static state (a cache, a
+    counter).  Every function-local static there must be const."""
+    n = 0
+    for fn in tu.fns.values():
+        if not fn.has_body or not fn.is_lib or "/matcher/" not in (fn.rec.get("loc") or ""):
+            continue
+        for b, e in fn.events():
+            if e["e"] == "decl" and e.get("static"):
+                n += 1
+                t = (e.get("type") or "").strip()
+                ok = t.startswith("const ") or t.endswith(" const") or "constexpr" in t
+                ctx.ob("C10.k", fn.qe + "::" + str(e.get("name")), ok, pattern=short_loc(e.get("loc", "")), unit=tu.name,
+                       inst=fn.q, detail="" if ok else "matcher code keeps mutable static state (`%s` of type %s): what a "
+                       "matcher accepts then depends on the history of the process" % (e.get("name"), t))
+    return n
+
+
 def run(ctx):
     ctx.explanation = (
         "Every scalar matcher is a single return expression (or a fold); its truth table is obtained by "
@@ -442,6 +461,7 @@ def run(ctx):
         c10g(ctx, tu)
         c10h(ctx, tu)
         nj = c10j(ctx, tu)
+        c10k(ctx, tu)
         if tu.name.startswith("match") and nj < 4:
             ctx.ob("C10.j", "combinators with lvalue operands", None, unit=tu.name,
                    detail="only %d instantiation(s) with an lvalue operand in %s" % (nj, tu.name))
